@@ -214,94 +214,150 @@ func (c *Ctx) trailingSKRule(r *Report, prefix string) {
 			if idx := f.LFOf(ia.Index); !idx.isConst() || idx.C != 0 {
 				continue
 			}
-			n++
-			key := "payloadData[0] := " + c.SrcExpr(st)
-			v := st.Val
-			for {
-				if cv, ok := v.(*ssa.Convert); ok {
-					v = cv.X
-					continue
+			// one store of a merged value (v = φ(...) computed by an if/else or an extracted helper) stands
+			// for one store per alternative, each on the path the alternative comes from
+			for _, alt := range phiAlternatives(st.Val, b, 0) {
+				b := alt.blk
+				n++
+				key := "payloadData[0] := " + c.SrcExpr(st)
+				if alt.val != st.Val {
+					key += " / " + alt.val.Name()
 				}
-				if ct, ok := v.(*ssa.ChangeType); ok {
-					v = ct.X
-					continue
-				}
-				break
-			}
-			hasNext := false // dominated by the true edge of (index+1) < len(container)
-			for bb := b; bb != nil; bb = bb.Idom() {
-				if len(bb.Preds) != 1 {
-					continue
-				}
-				p := bb.Preds[0]
-				iff, ok := p.Instrs[len(p.Instrs)-1].(*ssa.If)
-				if !ok {
-					continue
-				}
-				cond, ok := iff.Cond.(*ssa.BinOp)
-				if !ok || cond.Op != token.LSS || isLoopHeader[p] {
-					continue
-				}
-				add, ok := cond.X.(*ssa.BinOp)
-				if !ok || add.Op != token.ADD {
-					continue
-				}
-				if k, ok := add.Y.(*ssa.Const); !ok {
-					continue
-				} else if kv, _ := constInt64(k.Value); kv != 1 {
-					continue
-				}
-				if lc, ok := cond.Y.(*ssa.Call); ok {
-					if bi, ok := lc.Call.Value.(*ssa.Builtin); ok && bi.Name() == "len" && p.Succs[0] == bb {
-						hasNext = true
+				v := alt.val
+				for {
+					if cv, ok := v.(*ssa.Convert); ok {
+						v = cv.X
+						continue
 					}
-				}
-			}
-			switch x := v.(type) {
-			case *ssa.Call:
-				// next.Type(): receiver = container[index+1]
-				okT := x.Call.IsInvoke() && x.Call.Method.Name() == "Type" && hasNext
-				if okT {
-					if u, ok := x.Call.Value.(*ssa.UnOp); ok {
-						if ia2, ok := u.X.(*ssa.IndexAddr); ok {
-							// index+1 relative to the loop index
-							_ = ia2
-						} else {
-							okT = false
-						}
+					if ct, ok := v.(*ssa.ChangeType); ok {
+						v = ct.X
+						continue
 					}
+					break
 				}
-				r.Check(okT, rule, key, c.InstrPos(st), "not last: Type() of the following element", "a generic header is given a next-payload value that is not the following payload's type")
-			case *ssa.UnOp:
-				_, fld, ok := fieldLoad(v)
-				okF := ok && fld == "NextPayload" && !hasNext
-				// dominated by payload.Type() == TypeSK
-				okSK := false
+				hasNext := false // dominated by the true edge of (index+1) < len(container)
 				for bb := b; bb != nil; bb = bb.Idom() {
 					if len(bb.Preds) != 1 {
 						continue
 					}
 					p := bb.Preds[0]
-					if iff, ok := p.Instrs[len(p.Instrs)-1].(*ssa.If); ok && p.Succs[0] == bb {
-						if cond, ok := iff.Cond.(*ssa.BinOp); ok && cond.Op == token.EQL {
-							if k, ok := cond.Y.(*ssa.Const); ok && skConst != nil {
-								if kv, _ := constInt64(k.Value); kv == *skConst {
-									okSK = true
+					iff, ok := p.Instrs[len(p.Instrs)-1].(*ssa.If)
+					if !ok {
+						continue
+					}
+					cond, ok := iff.Cond.(*ssa.BinOp)
+					if !ok || cond.Op != token.LSS || isLoopHeader[p] {
+						continue
+					}
+					add, ok := cond.X.(*ssa.BinOp)
+					if !ok || add.Op != token.ADD {
+						continue
+					}
+					if k, ok := add.Y.(*ssa.Const); !ok {
+						continue
+					} else if kv, _ := constInt64(k.Value); kv != 1 {
+						continue
+					}
+					if lc, ok := cond.Y.(*ssa.Call); ok {
+						if bi, ok := lc.Call.Value.(*ssa.Builtin); ok && bi.Name() == "len" && p.Succs[0] == bb {
+							hasNext = true
+						}
+					}
+				}
+				switch x := v.(type) {
+				case *ssa.Call:
+					// next.Type(): receiver = container[index+1]
+					okT := x.Call.IsInvoke() && x.Call.Method.Name() == "Type" && hasNext
+					if okT {
+						if u, ok := x.Call.Value.(*ssa.UnOp); ok {
+							if ia2, ok := u.X.(*ssa.IndexAddr); ok {
+								// index+1 relative to the loop index
+								_ = ia2
+							} else {
+								okT = false
+							}
+						}
+					}
+					r.Check(okT, rule, key, c.InstrPos(st), "not last: Type() of the following element", "a generic header is given a next-payload value that is not the following payload's type")
+				case *ssa.UnOp:
+					_, fld, ok := fieldLoad(v)
+					okF := ok && fld == "NextPayload" && !hasNext
+					// dominated by payload.Type() == TypeSK
+					okSK := false
+					for bb := b; bb != nil; bb = bb.Idom() {
+						if len(bb.Preds) != 1 {
+							continue
+						}
+						p := bb.Preds[0]
+						if iff, ok := p.Instrs[len(p.Instrs)-1].(*ssa.If); ok && p.Succs[0] == bb {
+							if cond, ok := iff.Cond.(*ssa.BinOp); ok && cond.Op == token.EQL {
+								if k, ok := cond.Y.(*ssa.Const); ok && skConst != nil {
+									if kv, _ := constInt64(k.Value); kv == *skConst {
+										okSK = true
+									}
 								}
 							}
 						}
 					}
+					r.Check(okF && okSK, rule, key, c.InstrPos(st), "last and SK: the Encrypted payload's NextPayload field", "the trailing SK payload's generic header does not carry its NextPayload field")
+				case *ssa.Const:
+					kv, _ := constInt64(x.Value)
+					r.Check(kv == 0 && !hasNext, rule, key, c.InstrPos(st), "last and not SK: 0 (no next payload)", "a constant next-payload value other than 0, or 0 on a non-last payload")
+				default:
+					r.bad(rule, key, c.InstrPos(st), "unrecognised next-payload value")
 				}
-				r.Check(okF && okSK, rule, key, c.InstrPos(st), "last and SK: the Encrypted payload's NextPayload field", "the trailing SK payload's generic header does not carry its NextPayload field")
-			case *ssa.Const:
-				kv, _ := constInt64(x.Value)
-				r.Check(kv == 0 && !hasNext, rule, key, c.InstrPos(st), "last and not SK: 0 (no next payload)", "a constant next-payload value other than 0, or 0 on a non-last payload")
-			default:
-				r.bad(rule, key, c.InstrPos(st), "unrecognised next-payload value")
 			}
 		}
 	}
 	if n < 3 {
 		r.bad(rule, "three next-payload writers", c.Pos(fn.Pos()), fmt.Sprintf("found %d stores to octet 0 of the generic header", n))
 	}
+}
+
+type valAlt struct {
+	val ssa.Value
+	blk *ssa.BasicBlock // block the alternative's path comes from
+	to  *ssa.BasicBlock // block of the φ that merges it (nil for a plain value)
+}
+
+// phiAlternatives flattens a value merged by φ-nodes (not loop-carried) into its alternatives, each with the
+// block its path comes from; a plain value is its own single alternative in blk.
+func phiAlternatives(v ssa.Value, blk *ssa.BasicBlock, depth int) []valAlt {
+	w := v
+	for {
+		if cv, ok := w.(*ssa.Convert); ok {
+			w = cv.X
+			continue
+		}
+		if ct, ok := w.(*ssa.ChangeType); ok {
+			w = ct.X
+			continue
+		}
+		break
+	}
+	ph, ok := w.(*ssa.Phi)
+	if !ok || depth > 3 {
+		return []valAlt{{v, blk, nil}}
+	}
+	for _, e := range ph.Edges {
+		if e == ssa.Value(ph) {
+			return []valAlt{{v, blk, nil}}
+		}
+	}
+	for i, p := range ph.Block().Preds {
+		if ph.Block().Dominates(p) && ph.Block() != p {
+			_ = i
+			return []valAlt{{v, blk, nil}} // loop header
+		}
+	}
+	var out []valAlt
+	for i, e := range ph.Edges {
+		for _, a := range phiAlternatives(e, ph.Block().Preds[i], depth+1) {
+			if a.to == nil {
+				a.to = ph.Block()
+			}
+			out = append(out, a)
+		}
+	}
+	return out
 }
